@@ -162,12 +162,14 @@ CHECKER = "check_afun POW"
 
 
 # ---- planted pattern witnesses (random candles almost never form a hammer or doji star) ----
-def plant(rows: List[Dict], i: int, kind: str, margin: float = 2.0) -> bool:
+def plant(rows: List[Dict], i: int, kind: str, margin: float = 2.0, early: bool = False) -> bool:
     """Rewrite candle i (and for dojistar i-1) so that [kind] holds at i with a clear
-    margin on every clause.  Needs i >= 10.  Returns False when it cannot be placed."""
-    if i < 10 or i >= len(rows):
+    margin on every clause.  Needs i >= 10.  Returns False when it cannot be placed.
+    With [early] the shape is also placed at an index 2..9 (against the averages of the candles
+    there are): inside the warm-up the functions must answer False whatever the candle looks like."""
+    if i < (2 if early else 10) or i >= len(rows):
         return False
-    w9 = rows[i - 9:i]                      # the nine candles before i; candle i itself is rewritten below
+    w9 = rows[max(0, i - 9):i]              # the nine candles before i; candle i itself is rewritten below
     hl = sum(abs(r["high"] - r["low"]) for r in w9) / 10
     body9 = sum(abs(r["open"] - r["close"]) for r in w9) / 9
     body = body9
